@@ -126,6 +126,7 @@ structure JReg where
   phase : Phase
   prev : Option (Nat × Int) := none
   firstCode : Option Nat := none
+  selfCancel : Bool := false   -- `reg <tok> self`: the callback cancels the registration's own context when it is first invoked
 
 structure JState where
   regs : List JReg := []
@@ -185,7 +186,9 @@ def judgeLine (js : JState) (line : String) : JState × String :=
     match parseObsEvents obs with
     | none => (js, "violates unparsable-observation")
     | some os =>
-      let ws := words inp
+      let ws0 := words inp
+      let selfC := match ws0 with | ["reg", _, "self"] => true | _ => false
+      let ws := match ws0 with | ["reg", tok, "self"] => ["reg", tok] | w => w
       -- expectations that depend on the state *before* this line
       let pre : Option String :=
         match ws with
@@ -215,7 +218,9 @@ def judgeLine (js : JState) (line : String) : JState × String :=
                 let okc := code == 69 || code == 67
                 let sawOk := os.any (fun o => match o with | .regOk id => id == r.id | _ => false)
                 let sawErr := os.any (fun o => match o with | .regErr id => id == r.id | _ => false)
-                if okc && !sawOk then some s!"registration {r.id} did not succeed on a {code} answer"
+                -- (a registration whose callback cancels its own context while the call is returning may report either outcome:
+                --  the property only says that a FAILED registration stays silent - `judgeSilentF` below)
+                if okc && !sawOk && !(r.selfCancel && sawErr) then some s!"registration {r.id} did not succeed on a {code} answer"
                 else if !okc && !sawErr then some s!"registration {r.id} did not fail on a {code} answer"
                 else if cbs.any (· != r.id) then some "first response reached a foreign callback"
                 else none
@@ -226,7 +231,7 @@ def judgeLine (js : JState) (line : String) : JState × String :=
         match ws with
         | ["reg", tok] =>
           match tok.toNat? with
-          | some tok => { js with regs := js.regs ++ [{ id := js.nextId, tok := tok, phase := .pending }], nextId := js.nextId + 1,
+          | some tok => { js with regs := js.regs ++ [{ id := js.nextId, tok := tok, phase := .pending, selfCancel := selfC }], nextId := js.nextId + 1,
                                   all := js.all ++ [Obs.registered js.nextId tok] }
           | none => js
         | _ => js
